@@ -22,6 +22,12 @@ def main(tier):
             run.add(I.ReceiveImplTask('C06', cls, later_iteration=True))
     # messages longer than one frame: the packets carry the frames _encode_fast_message cuts (its segmentation contract,
     # also part of C03) and the identifier built / parsed by the header pair (also part of C05)
+    # whether a message is cut into fast-packet frames depends on its PGN only, never on how long its payload happens to be
+    # (contract of _encode, also part of C03)
+    from contracts.encoder_c import EncodeTask
+    run.add(EncodeTask('C06'))
+    for n in (0, 1, 3, 6, 7, 8, 20):
+        run.add(EncodeTask('C06', payload_len=n))
     from props.C03 import EncodeFastTask
     from props.C01 import chunks
     for ch in chunks(list(range(0, 224)), 32):
